@@ -52,6 +52,12 @@ theorem C05_typestrings_crash_sites (s : Str) (x : Site) (h : (parseType false s
     simp [hc, Out.crashSite] at h; subst h
     exact (C05TypeStr.parseType_known false s y hc).1
 
+/-- an independent NECESSARY condition for the end-of-input site (KF-C05-1): the parser phase of
+parseType (`parseClass false (|s|+1) s`) runs off the end only on strings with more '(' than ')' -/
+theorem C05_typestrings_eof_unbalanced (s : Str)
+    (h : parseClass false (s.length + 1) s = .crash .paramsEof) : 1 ≤ C05TypeStr.bal s :=
+  C05TypeStr.eof_unbalanced s h
+
 /-- getCassandraType / getTypeInfo (CQL type names of the v3 schema tables) never panic: the only
 slice expression `name[:len(name)-1]` is guarded by the prefix tests, the recursion terminates. -/
 theorem C05_cqltypenames_total (s : Str) :
